@@ -1,6 +1,7 @@
 import Driver.SettingsD
 import Driver.CacheD
 import Driver.UrlD
+import Driver.LoaderD
 /-! Line-protocol driver: one JSON object per stdin line, one per stdout line. -/
 open Lean Driver
 
@@ -13,6 +14,7 @@ def dispatch (j : Json) : R Json := do
   | "url.http_to_https" => urlHttpToHttps j
   | "url.normalize" => urlNormalize j
   | "url.port" => urlPort j
+  | "loader.policy" => loaderPolicy j
   | _ => throw s!"unknown op {op}"
 
 def handleLine (line : String) : String :=
